@@ -927,7 +927,28 @@ func (pt *prattTables) checkRegexFlag(c *Ctx, r *Result, rule string) {
 	// the advance after a prefix token in parseExpression: its flag must be true exactly for the
 	// prefix tokens whose nud goes on to parse an operand (or its own closing delimiter) and false
 	// for those whose nud returns at once (the operand is complete, an infix token follows)
+	// the prefix part of parseExpression may live in a helper method of the parser
+	prefixFns := []*ssa.Function{parseExpr}
 	for _, ci := range callsIn(parseExpr) {
+		cal := ci.Common().StaticCallee()
+		if cal == nil || cal == advance || cal == parseExpr || len(cal.Blocks) == 0 || cal.Signature.Recv() == nil || recvTypeName(cal) != recvTypeName(parseExpr) {
+			continue
+		}
+		callsAdvance := false
+		for _, c2 := range callsIn(cal) {
+			if c2.Common().StaticCallee() == advance {
+				callsAdvance = true
+			}
+		}
+		if callsAdvance {
+			prefixFns = append(prefixFns, cal)
+		}
+	}
+	var advCalls []ssa.CallInstruction
+	for _, pf := range prefixFns {
+		advCalls = append(advCalls, callsIn(pf)...)
+	}
+	for _, ci := range advCalls {
 		if ci.Common().StaticCallee() != advance {
 			continue
 		}
